@@ -120,12 +120,30 @@ fn dir_set(root: &Path) -> BTreeSet<String> {
 }
 
 fn c11_session(env: &WorkerEnv, pstr: &str, kind: &str, baseline: &(Vec<Option<Reply>>, Files)) -> Option<Violation> {
-    let first = match kind {
-        "Get" => Op::Get { path: pstr.to_string() },
-        "Delete" => Op::Delete { path: pstr.to_string(), expected: Exp::Absent },
-        _ => put(pstr, Exp::Absent, b"abc"),
-    };
-    let mut prog = vec![first];
+    c11_session_multi(env, &[(kind.to_string(), pstr.to_string(), 3)], baseline)
+}
+
+/// One session: the given requests (kind, path, Put content length), then the probe suffix.
+fn c11_session_multi(env: &WorkerEnv, reqs: &[(String, String, usize)], baseline: &(Vec<Option<Reply>>, Files)) -> Option<Violation> {
+    let mut prog = Vec::new();
+    for (kind, pstr, clen) in reqs {
+        prog.push(match kind.as_str() {
+            "Get" => Op::Get { path: pstr.clone() },
+            "Delete" => Op::Delete { path: pstr.clone(), expected: Exp::Absent },
+            _ => {
+                let content: Vec<u8> = (0..*clen).map(|i| b'a' + (i % 23) as u8).collect();
+                let mut op = put(pstr, Exp::Absent, &content);
+                if let Op::Put { pieces, .. } = &mut op {
+                    *pieces = clen.div_ceil(32_768).max(1);
+                }
+                op
+            }
+        });
+    }
+    let nreq = reqs.len();
+    let pstr: &str = &reqs.iter().map(|r| format!("{} {:?}{}", r.0, r.1, if r.2 != 3 { format!(" ({} content bytes)", r.2) } else { String::new() })).collect::<Vec<_>>().join(" ; ");
+    let kind = "session";
+    let all_refused = reqs.iter().all(|r| must_refuse(&r.1));
     prog.extend(probe_suffix());
     let mut init = Files::new();
     init.insert("a".into(), b"content of a".to_vec());
@@ -141,7 +159,7 @@ fn c11_session(env: &WorkerEnv, pstr: &str, kind: &str, baseline: &(Vec<Option<R
     let before = outside_snapshot(&base, &env.root);
     let ex = run_schedule(env, &sys, &RunOpts { knobs: Knobs { shim_root: Some("/".into()), cwd: Some(cwd.clone()) }, prefix: &[], allow_kill: false, instant: None });
     let after = outside_snapshot(&base, &env.root);
-    let det = json!({"path": pstr, "kind": kind});
+    let det = if nreq == 1 && reqs[0].2 == 3 { json!({"path": reqs[0].1, "kind": reqs[0].0}) } else { json!({"requests": reqs.iter().map(|r| json!([r.0, r.1, r.2])).collect::<Vec<_>>()}) };
     let root = env.root.to_string_lossy().into_owned();
     let real_root = std::fs::canonicalize(&env.root).map(|r| r.to_string_lossy().into_owned()).unwrap_or_else(|_| root.clone());
     // (1) every path-taking call stays under ROOT
@@ -165,13 +183,18 @@ fn c11_session(env: &WorkerEnv, pstr: &str, kind: &str, baseline: &(Vec<Option<R
     if !ex.reply_errors.is_empty() {
         return Some(Violation::new("stream_out_of_step", format!("{kind} with path {pstr:?}: reply stream broken: {:?}", ex.reply_errors), det));
     }
-    if must_refuse(pstr) {
-        // refused with an error reply, nothing created, connection stays usable
-        match ex.ops.first().and_then(|o| o.reply.clone()) {
-            Some(Reply::Error(_)) => {}
-            other => return Some(Violation::new("not_refused", format!("{kind} with path {pstr:?} (absolute or with a `..` component) was answered {:?} instead of an error", other.as_ref().map(reply_label)), det)),
+    for (i, r) in reqs.iter().enumerate() {
+        if must_refuse(&r.1) {
+            // refused with an error reply
+            match ex.ops.get(i).and_then(|o| o.reply.clone()) {
+                Some(Reply::Error(_)) => {}
+                other => return Some(Violation::new("not_refused", format!("{kind} with path {pstr:?}: request #{i} (absolute or with a `..` component) was answered {:?} instead of an error", other.as_ref().map(reply_label)), det)),
+            }
         }
-        let probe: Vec<Option<Reply>> = ex.ops.iter().skip(1).map(|o| o.reply.clone()).collect();
+    }
+    if all_refused {
+        // nothing created, connection stays usable
+        let probe: Vec<Option<Reply>> = ex.ops.iter().skip(nreq).map(|o| o.reply.clone()).collect();
         if probe != baseline.0 {
             return Some(Violation::new("connection_unusable", format!("{kind} with path {pstr:?}: the requests after the refused one got {:?}, a session without it gets {:?}", probe.iter().map(|r| r.as_ref().map(reply_label)).collect::<Vec<_>>(), baseline.0.iter().map(|r| r.as_ref().map(reply_label)).collect::<Vec<_>>()), det));
         }
@@ -189,13 +212,48 @@ fn c11_session(env: &WorkerEnv, pstr: &str, kind: &str, baseline: &(Vec<Option<R
     None
 }
 
+/// Sessions with TWO requests before the probe (state carried from one request to the next), and refused Puts
+/// whose content is larger than any buffer the server might drain it with.
+fn c11_multi_jobs(base: &Path, thorough: bool) -> Vec<Vec<(String, String, usize)>> {
+    let abs = base.join("cwd").to_string_lossy().into_owned();
+    let mut s: Vec<String> = vec!["../cwd/n1".into(), "../cwd/n2".into(), format!("{abs}/n1"), format!("{abs}/n2"), "d/../../cwd/n1".into(), "d/n1".into(), "d/n2".into(), "../n1".into(), "a".into()];
+    if thorough {
+        s.extend(["../cwd/sub/n1".to_string(), "./d/n3".into(), "d//n1".into(), format!("{abs}/../cwd/n2")]);
+    }
+    let kinds: Vec<(&str, &str)> = if thorough { vec![("Put", "Put"), ("Put", "Get"), ("Get", "Put"), ("Delete", "Put"), ("Put", "Delete"), ("Get", "Delete"), ("Delete", "Delete")] } else { vec![("Put", "Put"), ("Get", "Put"), ("Put", "Delete"), ("Delete", "Put")] };
+    let mut out = Vec::new();
+    for (k1, k2) in &kinds {
+        for p1 in &s {
+            for p2 in &s {
+                out.push(vec![((*k1).to_string(), p1.clone(), 3), ((*k2).to_string(), p2.clone(), 3)]);
+            }
+        }
+    }
+    let sizes: Vec<usize> = if thorough { vec![8192, 8193, 65_536, 65_537, 262_144, 262_145, 300_000, 1_048_577] } else { vec![65_537, 262_144, 262_145, 300_000] };
+    for sz in sizes {
+        for p in ["../cwd/big", "/tmp/../big", "d/../../big"] {
+            out.push(vec![("Put".to_string(), p.to_string(), sz)]);
+            out.push(vec![("Put".to_string(), p.to_string(), sz), ("Put".to_string(), "d/after".to_string(), 3)]);
+        }
+    }
+    out
+}
+
 pub fn run_c11(ctx: &Ctx) -> ! {
     let thorough = ctx.tier.is_thorough();
     let mut strings = path_strings(thorough);
+    let mut replay_multi: Option<Vec<(String, String, usize)>> = None;
     if let Some(rp) = &ctx.replay {
         let v: Value = serde_json::from_slice(&std::fs::read(rp).unwrap_or_default()).unwrap_or(Value::Null);
-        strings = vec![v["detail"]["path"].as_str().unwrap_or("a").to_string()];
+        if let Some(rs) = v["detail"]["requests"].as_array() {
+            replay_multi = Some(rs.iter().map(|r| (r[0].as_str().unwrap_or("Put").to_string(), r[1].as_str().unwrap_or("a").to_string(), r[2].as_u64().unwrap_or(3) as usize)).collect());
+            strings = Vec::new();
+        } else {
+            strings = vec![v["detail"]["path"].as_str().unwrap_or("a").to_string()];
+        }
     }
+    let next2 = AtomicU64::new(0);
+    let multi_total = AtomicU64::new(0);
     let envs: Vec<Mutex<WorkerEnv>> = (0..16).map(|i| Mutex::new(WorkerEnv::new(&format!("c11w{i}")))).collect();
     // baseline session: the probe suffix alone on an identical tree (per worker env, so paths match)
     let evals = AtomicU64::new(0);
@@ -236,6 +294,28 @@ pub fn run_c11(ctx: &Ctx) -> ! {
                     }
                     calls_seen.fetch_add(1, Ordering::Relaxed);
                 }
+                if ctx.replay.is_none() || replay_multi.is_some() {
+                    let jobs = match &replay_multi {
+                        Some(j) => vec![j.clone()],
+                        None => c11_multi_jobs(&env.sc.root, thorough),
+                    };
+                    multi_total.store(jobs.len() as u64, Ordering::Relaxed);
+                    loop {
+                        let i = next2.fetch_add(1, Ordering::Relaxed) as usize;
+                        if i >= jobs.len() {
+                            break;
+                        }
+                        evals.fetch_add(1, Ordering::Relaxed);
+                        if jobs[i].iter().all(|r| must_refuse(&r.1)) {
+                            refused.fetch_add(1, Ordering::Relaxed);
+                        }
+                        if let Some(v) = c11_session_multi(&env, &jobs[i], &baseline) {
+                            if let Ok(mut g) = viols.lock() {
+                                g.push(v);
+                            }
+                        }
+                    }
+                }
             });
         }
     });
@@ -251,7 +331,8 @@ pub fn run_c11(ctx: &Ctx) -> ! {
     rep.set("evaluations", evals.load(Ordering::Relaxed))
         .set("distinct_nontrivial", refused.load(Ordering::Relaxed))
         .set("path_strings", strings.len() as u64)
-        .set("rule", "path strings = every concatenation of 1..3 components from {.., ., empty, a, a..b, ..a, ..., a 300-byte name} joined by / or //, with and without a leading and a trailing slash (quick: 3-component strings only when one component is `..`), x {Get, Put with 3 content bytes, Delete}; each session = that request then Put(ok), Get(ok), List on a real `copia serve` whose EVERY path-taking libc call is announced by the interposer (VSHIM_ROOT=/); non-trivial = the string must be refused (absolute or has a `..` component)")
+        .set("two_request_and_large_content_sessions", multi_total.load(Ordering::Relaxed))
+        .set("rule", "path strings = every concatenation of 1..3 components from {.., ., empty, a, a..b, ..a, ..., a 300-byte name} joined by / or //, with and without a leading and a trailing slash (quick: 3-component strings only when one component is `..`), x {Get, Put with 3 content bytes, Delete}; each session = that request then Put(ok), Get(ok), List on a real `copia serve` whose EVERY path-taking libc call is announced by the interposer (VSHIM_ROOT=/); plus sessions with TWO requests before the probe (all ordered pairs over 9 path strings incl. relative and absolute names of an EXISTING directory outside the root, x 4 kind pairs) and refused Puts carrying 65 537 … 300 000 content bytes; non-trivial = the string must be refused (absolute or has a `..` component)")
         .set("samples", json!([{"path":"a/../../x","kind":"Put"},{"path":"/..a//.","kind":"Delete"},{"path":"a..b/...","kind":"Get"}]))
         .set("exhaustive", true);
     rep.assume("observation through libc-level interposition: open/openat/creat/stat*/statx/opendir/readlink/rename/unlink/mkdir/… with their path arguments made absolute against the server's cwd; the served tree contains no symlinks");
